@@ -370,11 +370,19 @@ def extract_client_consts(out: Out, c: Src):
             elif isinstance(t, ast.Compare) and unparse(t.left) == "len(local_payload)":
                 res["payloadCmp"] = cmp_name(t.ops[0])
                 res["payloadMax"] = const(t.comparators[0])
+            elif isinstance(t, ast.Compare) and unparse(t.left) == "remaining_length":
+                res["remLenCmp"] = cmp_name(t.ops[0])
+                res["remLenMax"] = const(t.comparators[0])
             elif s == "self._protocol != MQTTv5":
                 inner = [i for i in iff.body if isinstance(i, ast.If)]
                 if len(inner) == 1 and unparse(inner[0].test) == "topic is None or len(topic) == 0":
                     res["emptyTopicV3"] = True
-        for k in ("qosLoCmp", "qosLo", "qosHiCmp", "qosHi", "payloadCmp", "payloadMax", "emptyTopicV3"):
+        body = unparse(f)
+        for frag in ("remaining_length = 2 + len(topic_bytes) + len(local_payload)", "if qos > 0:\n        remaining_length += 2",
+                     "remaining_length += 1 if properties is None else len(properties.pack())"):
+            if frag not in body:
+                raise Missing("publish(): " + frag)
+        for k in ("qosLoCmp", "qosLo", "qosHiCmp", "qosHi", "payloadCmp", "payloadMax", "emptyTopicV3", "remLenCmp", "remLenMax"):
             if k not in res:
                 raise Missing("publish(): " + k)
         return res
@@ -387,8 +395,10 @@ def extract_client_consts(out: Out, c: Src):
         out.add(F, "pubQosHi", "Int", lean_val(r["qosHi"], "Int"), w)
         out.add(F, "pubPayloadCmp", "Cmp", f".{r['payloadCmp']}", w + ": len(local_payload) > 268435455")
         out.add(F, "pubPayloadMax", "Nat", str(r["payloadMax"]), w)
+        out.add(F, "pubRemLenCmp", "Cmp", f".{r['remLenCmp']}", w + ": if remaining_length > 268435455 (whole packet)")
+        out.add(F, "pubRemLenMax", "Nat", str(r["remLenMax"]), w)
     except Missing as e:
-        for n in ("pubQosLoCmp", "pubQosLo", "pubQosHiCmp", "pubQosHi", "pubPayloadCmp", "pubPayloadMax"):
+        for n in ("pubQosLoCmp", "pubQosLo", "pubQosHiCmp", "pubQosHi", "pubPayloadCmp", "pubPayloadMax", "pubRemLenCmp", "pubRemLenMax"):
             out.missing(F, n, e)
 
 
@@ -402,6 +412,11 @@ def extract_bytes(out: Out, srcs):
         wh = [n for n in f.body if isinstance(n, ast.While)]
         if len(wh) != 1:
             raise Missing("while True")
+        guards = [n for n in f.body if isinstance(n, ast.If) and isinstance(n.test, ast.Compare)
+                  and unparse(n.test.left) == "remaining_length" and isinstance(n.body[0], ast.Raise)]
+        if len(guards) != 1 or f.body.index(guards[0]) > f.body.index(wh[0]):
+            raise Missing("if remaining_length > 268435455: raise ValueError")
+        guard = (cmp_name(guards[0].test.ops[0]), const(guards[0].test.comparators[0]))
         body = wh[0].body
         # byte = remaining_length % 128 ; remaining_length = remaining_length // 128
         a0, a1 = body[0], body[1]
@@ -421,14 +436,18 @@ def extract_bytes(out: Out, srcs):
         rest = "\n".join(unparse(b) for b in body[3:])
         if "packet.append(byte)" not in rest or "if remaining_length == 0" not in rest:
             raise Missing("append / termination test")
-        return base, flag
+        return base, flag, guard
     try:
-        base, flag = remlen()
+        base, flag, guard = remlen()
+        out.add(F, "rlGuardCmp", "Cmp", f".{guard[0]}", "client.py Client._pack_remaining_length: if remaining_length > 268435455: raise ValueError")
+        out.add(F, "rlGuardMax", "Nat", str(guard[1]), "client.py Client._pack_remaining_length")
         out.add(F, "rlBase", "Nat", str(base), "client.py Client._pack_remaining_length: % 128, // 128")
         out.add(F, "rlFlag", "Nat", str(flag), "client.py Client._pack_remaining_length: byte |= 0x80")
     except Missing as e:
         out.missing(F, "rlBase", e)
         out.missing(F, "rlFlag", e)
+        out.missing(F, "rlGuardCmp", e)
+        out.missing(F, "rlGuardMax", e)
 
     def vbi():
         f = pr.func("VariableByteIntegers.encode")
